@@ -15,6 +15,7 @@ import (
 	"sort"
 	"strings"
 	"sync"
+	"sync/atomic"
 	"syscall"
 
 	"tags.cncf.io/container-device-interface/pkg/cdi"
@@ -278,7 +279,8 @@ func checkC13(c *Ctx) {
 					}
 				}
 			}
-			auto := !isPermFault(f.kind) && chance(r, 25)
+			// (the two faults injected from inside a scan need a scan we control: manual mode)
+			auto := !isPermFault(f.kind) && f.kind != "vanish" && f.kind != "replace-invalid" && chance(r, 30)
 			c13Scenario(cs, base, f, second, auto, fmt.Sprintf("%s/fault:%d", cs.Name, n))
 			c.AddEvaluations(1)
 		}
@@ -548,10 +550,12 @@ func c13Scenario(cs *Case, base *Pop, f c13Fault, second *c13Fault, auto bool, n
 		}
 	default:
 		var unhook func()
+		var hookArmed atomic.Bool
+		hookArmed.Store(!auto) // in auto mode the fault appears after the cache was created
 		if hookAction != "" {
 			done := false
 			unhook = hookPrefix(hookTarget, func(point, arg string, n int) {
-				if point != "scan.beforeRead" || arg != hookTarget || done {
+				if point != "scan.beforeRead" || arg != hookTarget || done || !hookArmed.Load() {
 					return
 				}
 				done = true
@@ -567,6 +571,9 @@ func c13Scenario(cs *Case, base *Pop, f c13Fault, second *c13Fault, auto bool, n
 		var cache *cdi.Cache
 		var ac *autoCache
 		if auto {
+			// auto-refresh mode: the cache is created on the good population, the
+			// fault appears afterwards and the watcher has to pick it up
+			base.Write()
 			anchor := filepath.Join(p.Root, "anchor")
 			must(os.MkdirAll(anchor, 0o755))
 			// the anchor goes last in the list here so that priorities of the model stay as they are
@@ -577,19 +584,28 @@ func c13Scenario(cs *Case, base *Pop, f c13Fault, second *c13Fault, auto bool, n
 			}
 			defer a.Close()
 			cache, ac = a.C, a
+			cache.ListDevices()
+			hookArmed.Store(true)
+			disk.Write()
+			if !ac.Quiesce() {
+				c.Inconclusive("quiesce-timeout")
+				return
+			}
+			makeReport(cache, false) // first round of queries (re-adds watches of recreated directories)
+			if !ac.Quiesce() {
+				c.Inconclusive("quiesce-timeout")
+				return
+			}
 		} else {
 			if pv, st := guard(func() { cache, _ = cdi.NewCache(cdi.WithSpecDirs(p.Conf...), cdi.WithAutoRefresh(false)) }); pv != nil {
 				(&Case{Ctx: c, Name: name}).Violation("panic", tags, fmt.Sprintf("NewCache panics: %v", pv), map[string]any{"w": wit(nil, "fault"), "stack": st})
 				return
 			}
 		}
-		rep := makeReport(cache, !auto)
-		if auto {
-			// auto mode: the error keys include directory watch errors; Refresh() is not called
-			if !report("with fault", rep, res, mustErr, false, false) {
-				return
-			}
-		} else if !report("with fault", rep, res, mustErr, refreshMustFail, refreshMustSucceed) {
+		// (in auto mode the error keys also hold directory watch errors; Refresh() reports
+		// what the watcher's own rescans found)
+		rep := makeReport(cache, true)
+		if !report("with fault", rep, res, mustErr, refreshMustFail, refreshMustSucceed) {
 			return
 		}
 		q := repair()
@@ -597,9 +613,16 @@ func c13Scenario(cs *Case, base *Pop, f c13Fault, second *c13Fault, auto bool, n
 			c.Inconclusive("quiesce-timeout")
 			return
 		}
+		if ac != nil {
+			makeReport(cache, false)
+			if !ac.Quiesce() {
+				c.Inconclusive("quiesce-timeout")
+				return
+			}
+		}
 		rep = makeReport(cache, true)
 		qres := q.Resolve()
-		if !report("after repair", rep, qres, nil, false, len(qres.Conflicts) == 0 && !auto) {
+		if !report("after repair", rep, qres, nil, false, len(qres.Conflicts) == 0) {
 			return
 		}
 		for _, k := range rep.ErrKeys {
